@@ -489,22 +489,28 @@ func pairCase(t *engine.T, A, B, empty gen.ListSpec) *engine.Violation {
 func attrCube(c *engine.Ctx) {
 	c.Group("attr-cube")
 	fds := gen.FieldsExcept(&sbom.Node{}, "id", "type")
-	c.Bound("attr-cube", fmt.Sprintf("%d attributes by reflection: every unordered pair (incl. f=g) x 16 emptiness combinations x 2 backgrounds, Union and Add", len(fds)))
+	c.Bound("attr-cube", fmt.Sprintf("%d attributes by reflection: every unordered pair (incl. f=g) x 16 emptiness combinations x 2 backgrounds x empty collections {nil, allocated with length 0}, Union and Add", len(fds)))
 	for fi := range fds {
 		for gi := fi; gi < len(fds); gi++ {
 			for combo := 0; combo < 16; combo++ {
-				for bg := 0; bg < 2; bg++ {
+				for bg := 0; bg < 4; bg++ {
 					f, g, combo, bg := fds[fi], fds[gi], combo, bg
 					c.Case(func() any {
-						return map[string]any{"f": f.Name(), "g": g.Name(), "A.f,B.f,A.g,B.g set": fmt.Sprintf("%04b", combo), "background-populated": bg == 1}
+						return map[string]any{"f": f.Name(), "g": g.Name(), "A.f,B.f,A.g,B.g set": fmt.Sprintf("%04b", combo), "background-populated": bg&1 == 1, "empty-collections-allocated": bg&2 != 0}
 					}, func(t *engine.T) *engine.Violation {
-						return cubeCase(t, fds, f, g, combo, bg == 1)
+						AllocatedEmpty = bg&2 != 0
+						defer func() { AllocatedEmpty = false }()
+						return cubeCase(t, fds, f, g, combo, bg&1 == 1)
 					})
 				}
 			}
 		}
 	}
 }
+
+// AllocatedEmpty: empty lists and maps of the cube's nodes are allocated (non-nil, length 0) instead of nil - the form
+// NewNode(), Copy() and the results of earlier operations produce.
+var AllocatedEmpty bool
 
 func mkNode(fds []protoreflect.FieldDescriptor, f, g protoreflect.FieldDescriptor, setF, setG bool, k int, tag string, bg bool) *sbom.Node {
 	n := &sbom.Node{Id: "shared"}
@@ -524,6 +530,9 @@ func mkNode(fds []protoreflect.FieldDescriptor, f, g protoreflect.FieldDescripto
 				gen.SetField(r, fd, k, tag)
 			}
 		}
+	}
+	if AllocatedEmpty {
+		gen.AllocateEmpty(n)
 	}
 	return n
 }
